@@ -229,13 +229,15 @@ def c01(tier):
         jobs.append(Job("h_c18::converge", c, dict(S2), budget_s=6000, validate=30))
     jobs.append(Job("h_c02::delivery", (0, 6, 0), dict(S2), budget_s=4000, validate=20))
     jobs.append(Job("h_c18::concurrent_creations", (12 if tier != "quick" else 8,), dict(S2), budget_s=3000, validate=30))
+    jobs.append(Job("h_c02::copy_then_meld", (12 if tier != "quick" else 4,), dict(S2), budget_s=3000, validate=30))
     return dict(jobs=jobs, bounds={"concurrent creations": "both replicas submit one of k documents with equal element contents, so that identical revisions occur in two different blocks",
                                    "tree level": TREE_BOUNDS,
                                    "melda level [k orders, operations]": [list(c) for c in conv],
                                    "operations": "symbolic sequence over {a.update, b.update, a.commit (+ reopen comparison), b.commit, a.pull(b), b.pull(a), a.unstage, a.delete_object, a.stage_full_snapshot, "
                                                  "a.resolve_as(first conflict, winner), a.reload} after a shared base; then unstage, exchange until nothing new, "
                                                  "compare a, b, a replica fed by plain file copy in reverse listing order with refreshes at symbolic points, and a replica opened by one reload",
-                                   "file-copy route": "all delivery orders of a 2-commit history (job shared with C02)"},
+                                   "file-copy route": "all delivery orders of a 2-commit history (job shared with C02)",
+                                   "mixed route": "any subset of the 4 files of a 2-commit history copied in any order with a refresh after each, the rest melded; second meld transfers nothing; storages hold the same items"},
                 assumptions=TREE_ASSUME + S2_ASSUME + ["two writers; time travel inside the history is covered by C14, resolutions by C07"],
                 note="revisiontree.rs / revision.rs + melda.rs meld / refresh / reload / apply_delta / commit from MIR")
 
